@@ -289,6 +289,25 @@ def run(ctx):
         ("_plot_training_data", "labels"): "plotting only",
     }
 
+    # the same reviewed sites keyed without local names: names replaced by `_` (attribute / call names kept)
+    def _shape_key(e_, binds_, depth_=0):
+        import copy as _copy
+
+        e2_ = _copy.deepcopy(e_)
+
+        class _Anon(ast.NodeTransformer):
+            def visit_Name(self, n_):
+                return ast.copy_location(ast.Name(id="_", ctx=n_.ctx), n_)
+
+        return src(_Anon().visit(e2_))
+
+    REVIEWED_SET_SHAPES = {
+        ("__getstate__", "_.keys() - _"): REVIEWED_SET_ITER[("__getstate__", "d.keys() - exclude")],
+        ("check_proposal_kwargs", "_"): "see the named entries of check_proposal_kwargs",
+        ("__init__", "{0, 1, 2} - {_, _}"): REVIEWED_SET_ITER[("__init__", "{0, 1, 2} - {hz, vt}")],
+        ("_plot_training_data", "_"): REVIEWED_SET_ITER[("_plot_training_data", "labels")],
+    }
+
     def _setexpr(e_, names_):
         if isinstance(e_, (ast.Set, ast.SetComp)):
             return True
@@ -329,7 +348,13 @@ def run(ctx):
             if it_ is None or not _setexpr(it_, names_):
                 continue
             n_set += 1
+            # (the key is the iterated expression with a set-valued local replaced by the expression it was bound to, so
+            # renaming a local does not change it)
             why_ = REVIEWED_SET_ITER.get((f_.name, src(it_)))
+            if why_ is None:
+                binds_ = {s_.targets[0].id: s_.value for s_ in walk_no_nested(f_.node) if isinstance(s_, ast.Assign) and len(s_.targets) == 1 and isinstance(s_.targets[0], ast.Name)}
+                key_ = _shape_key(it_, binds_)
+                why_ = next((w_ for (fn_, t_), w_ in REVIEWED_SET_SHAPES.items() if fn_ == f_.name and t_ == key_), None)
             ctx.ob("R-RNG", "C14.5", f_, "an iteration over a set (hash order: differs between processes) is sorted or a reviewed order-insensitive use", why_ is not None, f"`{src(it_)[:60]}` in `{src(n_)[:70]}`" + (f": {why_}" if why_ else ": the order of its elements reaches a list / loop"), node=n_)
     ctx.require(n_set >= 5, f"only {n_set} set iterations found (the reviewed ones expected)")
     ctx.floor("C14.5", 5)
